@@ -42,6 +42,10 @@ def make_exc(kind, fid):
         e = ValueError('injected %s' % fid)
     elif kind == 'oserror':
         e = OSError(errno.ENOSPC, 'injected %s' % fid)
+    elif kind == 'brokenpipe':
+        # what a pipe/FIFO/socket-backed destination raises; a ConnectionError,
+        # i.e. the same family as the retryable *network* errors
+        e = BrokenPipeError(errno.EPIPE, 'injected %s' % fid)
     elif kind == 'eio':
         e = OSError(errno.EIO, 'injected %s' % fid)
     elif kind == 'simfault':
